@@ -15,7 +15,7 @@ from hypothesis import strategies as st
 from . import proto as P
 from .world import World
 
-OPEN, CONNECT, SUB, PUB, READY, SETNAME, DISCONNECT, CLOSE, STEP, FAULT, BURST = range(11)
+OPEN, CONNECT, SUB, PUB, READY, SETNAME, DISCONNECT, CLOSE, STEP, FAULT, BURST, HFRAME, HCTRL, HGARBAGE, HCLOSE, HMASS, PROBE = range(17)
 
 TYPES_U = [1234, 5000, 33, 8, 0, 2, 100, 9999, 10000, 65536, -1, 2 ** 31 - 2, -(2 ** 31), 42, 80]
 SIZES = [0, 8, 1, 7, 64, 4096, 65535]
@@ -43,6 +43,9 @@ class Profile:
     setup_ops: list = field(default_factory=list)  # concrete ops executed first (monitors ...)
     protected: tuple = ()  # connection indices that never leave, never fail and are always writable
     fault_exact_only: bool = True  # inject write faults only where the model can predict the victim frame
+    allow_all: bool = True  # well-behaved clients may subscribe to ALL_MESSAGE_TYPES
+    allow_dynamic: bool = True
+    max_hostile: int = 6
 
     def codes(self):
         out = []
@@ -86,7 +89,7 @@ def _pick_type(pf: Profile, sel: int, with_all: bool) -> int:
     if sel % 4 != 3:
         return main[(sel // 4) % len(main)]
     sel //= 4
-    pool = pf.types + ([P.ALL_MESSAGE_TYPES] * 3 if with_all else [])
+    pool = pf.types + ([P.ALL_MESSAGE_TYPES] * 3 if (with_all and pf.allow_all) else [])
     return pool[sel % len(pool)]
 
 
@@ -119,12 +122,14 @@ def resolve(w: World, raw, pf: Profile) -> Optional[dict]:
             pool = [0] + pf.static_ids + held[:3] + [100, 101, 199, 200, -1, 32767]
             rid = pool[b % len(pool)]
         else:
-            if b % pf.dyn_ratio == 0:
+            if pf.allow_dynamic and b % pf.dyn_ratio == 0:
                 rid = 0
             else:
                 queued = {getattr(x, "h_id", None) for x in w.mods if not x.client_closed or x.tracked}
                 free = [i for i in pf.static_ids if i not in held and i not in queued]
                 if not free:
+                    if not pf.allow_dynamic:
+                        return None
                     rid = 0
                 else:
                     rid = free[(b // pf.dyn_ratio) % len(free)]
@@ -212,14 +217,193 @@ def resolve(w: World, raw, pf: Profile) -> Optional[dict]:
             sel = [cand[a % len(cand)]]
         sel = _perm(sel, b)
         acc = [m.idx for m in w.mods if (m.accepted or m in w.backlog) and not (m.client_closed and not m.tracked)]
+        acc += [f"h{h.idx}" for h in w.hmods if not h.conn.m.closed][:12]
         if c % 4 < pf.writable_all_bias:
             wr = acc
         else:
             wr = [x for i, x in enumerate(acc) if ((c >> 2) >> i) & 1]
-        wr = sorted(set(wr) | {i for i in pf.protected if i < len(w.mods)})
+        wr = sorted(set(wr) | {i for i in pf.protected if i < len(w.mods)}, key=str)
         dt = pf.dts[d % len(pf.dts)]
         return {"op": "step", "ready": sel, "writable": wr, "dt": dt}
     return None
+
+
+
+# ---- hostile input -----------------------------------------------------------------------------
+import hashlib as _hl
+import struct as _st
+
+INT32B = [-2 ** 31, -1, 0, 1, 2 ** 31 - 1, 2 ** 31 - 2, 65536, 10000, 9999, 777]
+INT16B = [-32768, -1, 0, 1, 32767, 200, 201, 5, 6, 199]
+UINT32B = [0, 1, 2 ** 32 - 1, 2 ** 31]
+DBLB = [0.0, float("inf"), float("-inf"), float("nan"), 1e308, 5e-324, -0.0]
+NBYTES = [-2 ** 31, -1, 2 ** 20 + 1, 2 ** 31 - 1, 2 ** 20, 70000, 0, 1]
+HPOOL = [0, 60, 61, 62, 100, 101, 199, 200, -1, 32767, -32768, 0, 0]
+HNAMES = [b"", b"hx", b"\xff\xfe\x80", b"A" * 32, b"caf\xc3\xa9", b"hx\x00junk", bytes(range(128, 160))]
+HTYPE = 777
+HFIELDS = ["msg_type", "msg_count", "send_time", "recv_time", "src_host_id", "src_mod_id", "dest_host_id",
+           "dest_mod_id", "num_data_bytes", "remaining_bytes", "is_dynamic", "reserved", "all"]
+KW = dict(msg_type="msg_type", msg_count="msg_count", send_time="send_time", recv_time="recv_time", src_host_id="src_host",
+          src_mod_id="src_mod", dest_host_id="dest_host", dest_mod_id="dest_mod", remaining_bytes="remaining",
+          is_dynamic="is_dynamic", reserved="reserved")
+VALS = dict(msg_type=INT32B, msg_count=INT32B, send_time=DBLB, recv_time=DBLB, src_host_id=INT16B, src_mod_id=INT16B,
+            dest_host_id=INT16B, dest_mod_id=INT16B, remaining_bytes=INT32B, is_dynamic=INT32B, reserved=UINT32B)
+
+
+def _prng(n: int, *key) -> bytes:
+    out = b""
+    i = 0
+    while len(out) < n:
+        out += _hl.sha256(repr((key, i)).encode()).digest()
+        i += 1
+    return out[:n]
+
+
+def _safe_type(t, conv):
+    """Hostile publishes never use a type a well-behaved client may subscribe to."""
+    return HTYPE if t in conv else t
+
+
+def protocol_frames(tc: bool, sel: int = 0):
+    """The nine control frames (well-formed) and one data frame, as a hostile client would send them."""
+    hid = HPOOL[1 + sel % 3]
+    return [
+        ("CONNECT_V2", P.build(P.MT_CONNECT_V2, P.CONNECT_V2.pack(0, 0, 0, hid, 5, P.cstr(b"hx")), src_mod=hid, timecode=tc)),
+        ("CONNECT", P.build(P.MT_CONNECT, P.CONNECT.pack(0, 0), src_mod=hid, timecode=tc)),
+        ("SUBSCRIBE", P.build(P.MT_SUBSCRIBE, P.SUBSCRIBE.pack(HTYPE), src_mod=hid, timecode=tc)),
+        ("UNSUBSCRIBE", P.build(P.MT_UNSUBSCRIBE, P.SUBSCRIBE.pack(HTYPE), src_mod=hid, timecode=tc)),
+        ("PAUSE", P.build(P.MT_PAUSE_SUBSCRIPTION, P.SUBSCRIBE.pack(HTYPE), src_mod=hid, timecode=tc)),
+        ("RESUME", P.build(P.MT_RESUME_SUBSCRIPTION, P.SUBSCRIBE.pack(P.ALL_MESSAGE_TYPES), src_mod=hid, timecode=tc)),
+        ("MODULE_READY", P.build(P.MT_MODULE_READY, P.MODULE_READY.pack(77), src_mod=hid, timecode=tc)),
+        ("SET_NAME", P.build(P.MT_CLIENT_SET_NAME, P.cstr(b"hname"), src_mod=hid, timecode=tc)),
+        ("DISCONNECT", P.build(P.MT_DISCONNECT, b"", src_mod=hid, timecode=tc)),
+        ("DATA", P.build(HTYPE, _prng(64, "d"), src_mod=hid, timecode=tc)),
+    ]
+
+
+def _hostile_target(w: World, pf: Profile, sel: int):
+    """Index of a live hostile connection; None => a new one has to be opened."""
+    live = [h for h in w.hmods if not h.client_closed and not h.conn.m.closed]
+    if not live or (sel % 5 == 0 and len(live) < pf.max_hostile):
+        return None
+    return live[sel % len(live)].idx
+
+
+def resolve_hostile(w: World, raw, pf: Profile):
+    """Returns a list of concrete ops."""
+    code, a, b, c, d, e = raw
+    tc = w.timecode
+    conv = set(pf.types)
+    tgt = _hostile_target(w, pf, a)
+    pre = []
+    if tgt is None:
+        if len(w.hmods) >= 40:
+            return []
+        pre = [{"op": "hopen"}]
+        tgt = len(w.hmods)
+    if code == HFRAME:
+        field = HFIELDS[b % len(HFIELDS)]
+        size = [0, 8, 100][d % 3]
+        payload = _prng(size, "p", c)
+        kw = dict(src_mod=HPOOL[1 + e % 3])
+        then = None
+        if field == "num_data_bytes":
+            n = NBYTES[c % len(NBYTES)]
+            if 0 <= n <= 2 ** 20 + 1:
+                payload = _prng(n, "n")
+                fr = P.build(HTYPE, payload, timecode=tc, **kw)
+            else:
+                fr = P.build(HTYPE, payload, num_data_bytes=n, timecode=tc, **kw)
+                then = "fin" if e % 2 else "rst"
+            desc = f"field:num_data_bytes={n}"
+        elif field == "all":
+            vals = {KW[f]: VALS[f][(c + i) % len(VALS[f])] for i, f in enumerate(KW)}
+            vals["msg_type"] = _safe_type(vals["msg_type"], conv)
+            fr = P.build(vals.pop("msg_type"), payload, timecode=tc, **vals)
+            desc = "field:all-boundaries"
+        else:
+            v = VALS[field][c % len(VALS[field])]
+            if field == "msg_type":
+                fr = P.build(_safe_type(v, conv), payload, timecode=tc, **kw)
+            else:
+                kw[KW[field]] = v
+                fr = P.build(HTYPE, payload, timecode=tc, **kw)
+            desc = f"field:{field}={v}"
+        op = {"op": "hsend", "h": tgt, "hex": fr.hex(), "desc": desc}
+        if then:
+            op["then"] = then
+        return pre + [op]
+    if code == HCTRL:
+        ctl = [P.MT_CONNECT_V2, P.MT_CONNECT, P.MT_SUBSCRIBE, P.MT_UNSUBSCRIBE, P.MT_PAUSE_SUBSCRIPTION,
+               P.MT_RESUME_SUBSCRIPTION, P.MT_MODULE_READY, P.MT_CLIENT_SET_NAME, P.MT_DISCONNECT][b % 9]
+        variant = c % 5  # 0 crafted, 1 long, 2 short, 3 garbage of exact size, 4 crafted with hostile name
+        hid = HPOOL[d % len(HPOOL)]
+        name = HNAMES[e % len(HNAMES)]
+        sizes = {P.MT_CONNECT_V2: 44, P.MT_CONNECT: 4, P.MT_SUBSCRIBE: 4, P.MT_UNSUBSCRIBE: 4, P.MT_PAUSE_SUBSCRIPTION: 4,
+                 P.MT_RESUME_SUBSCRIPTION: 4, P.MT_MODULE_READY: 4, P.MT_CLIENT_SET_NAME: 32, P.MT_DISCONNECT: 0}
+        if ctl == P.MT_CONNECT_V2:
+            flags = [0, 1, 2, -1, 32767]
+            payload = P.CONNECT_V2.pack(flags[e % 5], flags[(e // 5) % 5], flags[(e // 25) % 5], hid, INT32B[e % len(INT32B)],
+                                        name[:32].ljust(32, b"\0"))
+        elif ctl == P.MT_CONNECT:
+            flags = [0, 1, 2, -1, 32767]
+            payload = P.CONNECT.pack(flags[e % 5], flags[(e // 5) % 5])
+        elif ctl == P.MT_CLIENT_SET_NAME:
+            payload = name[:32].ljust(32, b"\0")
+        elif ctl == P.MT_MODULE_READY:
+            payload = P.MODULE_READY.pack(INT32B[e % len(INT32B)])
+        elif ctl == P.MT_DISCONNECT:
+            payload = b""
+        else:
+            tsel = (INT32B + [P.ALL_MESSAGE_TYPES, 1234, 5000, 8, 33, 32])[e % (len(INT32B) + 6)]
+            payload = P.SUBSCRIBE.pack(tsel)
+        is_conn = ctl in (P.MT_CONNECT_V2, P.MT_CONNECT)
+        if variant == 1:
+            payload = payload + _prng(500, "long", e)
+        elif variant == 2 and not is_conn:
+            payload = payload[: e % 2]
+        elif variant == 3 and not is_conn:
+            payload = _prng(sizes[ctl], "g", e)
+        fr = P.build(ctl, payload, src_mod=hid, timecode=tc)
+        return pre + [{"op": "hsend", "h": tgt, "hex": fr.hex(), "desc": f"ctrl:{ctl}/v{variant}/id{hid}/name{e % len(HNAMES)}"}]
+    if code == HGARBAGE:
+        n = [1, 47, 48, 49, 56, 100, 1000, 5000][b % 8]
+        return pre + [{"op": "hsend", "h": tgt, "hex": _prng(n, "junk", c).hex(), "then": "fin" if d % 2 else "rst",
+                       "gone": ["silent", "epipe", "reset", "first-ok"][e % 4], "desc": f"garbage:{n}"}]
+    if code == HCLOSE:
+        frames = protocol_frames(tc, d)
+        nm, fr = frames[b % len(frames)]
+        k = c % (len(fr) + 1)
+        return pre + [{"op": "hsend", "h": tgt, "hex": fr[:k].hex(), "then": "fin" if d % 2 else "rst",
+                       "gone": ["silent", "epipe", "reset", "first-ok"][e % 4], "desc": f"cut:{nm}@{k}"}]
+    if code == HMASS:
+        if getattr(w, "mass_done", False):
+            return []
+        w.mass_done = True
+        n = [50, 150, 300][b % 3]
+        hello = P.build(P.MT_CONNECT, P.CONNECT.pack(0, 0), src_mod=0, timecode=tc) if c % 2 == 0 else b""
+        return [{"op": "hopen", "n": n, "hex": hello.hex()}]
+    return []
+
+
+def probe(w: World):
+    """A fresh well-behaved pair must still be served: connect -> ACK -> subscribe -> publish -> receive."""
+    a = len(w.mods)
+    for k, rid in enumerate((95, 96)):
+        w.apply({"op": "open"})
+        w.apply({"op": "connect", "c": a + k, "ver": "v2v1", "id": rid, "logger": 0, "daemon": 0, "multi": 0,
+                 "name": f"probe{k}", "pid": 9500 + k})
+    w.drain()
+    w.apply({"op": "sub", "c": a, "kind": "SUBSCRIBE", "type": 4321})
+    w.drain()
+    w.apply({"op": "pub", "c": a + 1, "type": 4321, "dm": 0, "dh": 0, "size": 8, "src": 96})
+    w.drain()
+    if w.pubs[w.seq]["recipients"] != [a]:
+        raise HarnessError("probe: model did not expect the delivery")
+    w.apply({"op": "disconnect", "c": a})
+    w.apply({"op": "disconnect", "c": a + 1})
+    w.drain()
+    w.stats["probes"] += 1
 
 
 def run_history(cfg: dict, pf: Profile, raws, prop: str, setup_ops: Optional[list] = None) -> World:
@@ -246,10 +430,19 @@ def run_history(cfg: dict, pf: Profile, raws, prop: str, setup_ops: Optional[lis
                 w.apply(op)
         w.drain()
         for raw in raws:
+            if raw[0] in (HFRAME, HCTRL, HGARBAGE, HCLOSE, HMASS):
+                for op in resolve_hostile(w, raw, pf):
+                    w.apply(op)
+                continue
+            if raw[0] == PROBE:
+                probe(w)
+                continue
             op = resolve(w, raw, pf)
             if op is not None:
                 w.apply(op)
         w.drain()
+        if PROBE in pf.weights:
+            probe(w)
         w.final_checks()
         return w
     finally:
